@@ -633,6 +633,9 @@ func (e *Exec) rollback(s snapshot) {
 	}
 	e.ctxMark = s.nassump
 	e.ctxPC = s.ctxPC
+	for len(e.viewFacts) > 0 && e.viewFacts[len(e.viewFacts)-1].at >= s.nassump {
+		e.viewFacts = e.viewFacts[:len(e.viewFacts)-1]
+	}
 	e.obls = e.obls[:s.nobl]
 	e.unsupported = e.unsupported[:s.nunsup]
 	e.counters = s.counters
@@ -1040,6 +1043,7 @@ func (e *Exec) cutLoop(st *State, spec *LoopSpec, ord int, label string, vars []
 	// 1. invariants hold on entry
 	for k, inv := range spec.Invariants {
 		g := e.specBool(st, inv, nil)
+		e.pendingView = e.viewGoalOf(inv, nil, st)
 		e.obligeNamed(st, fmt.Sprintf("%s/inv#%d.%d.init", e.fn.Key, ord, k), "inv", inv.Tag, g, "loop invariant on entry: "+inv.Src, p)
 	}
 	// 2. havoc
@@ -1057,7 +1061,7 @@ func (e *Exec) cutLoop(st *State, spec *LoopSpec, ord int, label string, vars []
 	})
 	st.leaves = nil
 	for _, inv := range spec.Invariants {
-		e.assumeTagged(st, e.specBool(st, inv, nil), inv.Tag)
+		e.assumeClause(st, inv, nil)
 	}
 	var variant0 Term
 	if spec.Decreases != nil {
@@ -1082,6 +1086,7 @@ func (e *Exec) cutLoop(st *State, spec *LoopSpec, ord int, label string, vars []
 	if !m.dead {
 		for k, inv := range spec.Invariants {
 			g := e.specBool(m, inv, nil)
+			e.pendingView = e.viewGoalOf(inv, nil, m)
 			e.obligeNamed(m, fmt.Sprintf("%s/inv#%d.%d.keep", e.fn.Key, ord, k), "inv", inv.Tag, g, "loop invariant preserved: "+inv.Src, p)
 		}
 		if spec.Decreases != nil {
